@@ -103,8 +103,8 @@ func (r *recorder) MOUNTPROC3_MNT(a nfstypes.Dirpath3) (res nfstypes.Mountres3) 
 	return
 }
 func (r *recorder) MOUNTPROC3_DUMP() (res nfstypes.Mountopt3) { r.called = "MOUNTPROC3_DUMP"; return }
-func (r *recorder) MOUNTPROC3_UMNT(a nfstypes.Dirpath3)        { r.called = "MOUNTPROC3_UMNT" }
-func (r *recorder) MOUNTPROC3_UMNTALL()                        { r.called = "MOUNTPROC3_UMNTALL" }
+func (r *recorder) MOUNTPROC3_UMNT(a nfstypes.Dirpath3)       { r.called = "MOUNTPROC3_UMNT" }
+func (r *recorder) MOUNTPROC3_UMNTALL()                       { r.called = "MOUNTPROC3_UMNTALL" }
 func (r *recorder) MOUNTPROC3_EXPORT() (res nfstypes.Exportsopt3) {
 	r.called = "MOUNTPROC3_EXPORT"
 	return
@@ -112,7 +112,8 @@ func (r *recorder) MOUNTPROC3_EXPORT() (res nfstypes.Exportsopt3) {
 
 // cmdDispatch calls every registered handler of both tables with an (empty but
 // well-formed) argument message and prints which method was reached:
-//   disp <prog> <vers> <proc> <method reached> <decode ok>
+//
+//	disp <prog> <vers> <proc> <method reached> <decode ok>
 func cmdDispatch(fs *flag.FlagSet, args []string) {
 	fs.Parse(args)
 	r := &recorder{}
